@@ -1,0 +1,37 @@
+//go:build verif
+
+// Machine contracts (layer M) of the operators: each operator is specified as a Mealy machine
+// over ghost history counters; the verifier checks every callback of the real closure against it.
+// Comments only; see /verif/DESIGN.md section 2.3 and Appendix E.
+
+package ro
+
+// `n` is always the number of values received from the source so far.
+
+//@ operator Take
+//@   props C04 C14
+//@   requires count >= 1
+//@   ghost n int = 0
+//@   inv index == n && n < count
+//@   on next(ctx, value) when n + 1 < count : emits Next(ctx, value) ; n' = n + 1
+//@   on next(ctx, value) when n + 1 >= count : emits Next(ctx, value), Complete(ctx)
+
+//@ operator Skip
+//@   props C04
+//@   ghost n int = 0
+//@   inv index == n
+//@   on next(ctx, value) when n >= count : emits Next(ctx, value) ; n' = n + 1
+//@   on next(ctx, value) when n < count : emits ; n' = n + 1
+
+//@ operator MapIWithContext
+//@   props C04 C09
+//@   ghost n int = 0
+//@   inv i == n
+//@   on next(ctx, value) : emits Next(project_0(ctx, value, n), project_1(ctx, value, n)) ; n' = n + 1
+
+//@ operator FilterIWithContext
+//@   props C04 C09
+//@   ghost n int = 0
+//@   inv i == n
+//@   on next(ctx, value) when predicate_1(ctx, value, n) : emits Next(predicate_0(ctx, value, n), value) ; n' = n + 1
+//@   on next(ctx, value) when !predicate_1(ctx, value, n) : emits ; n' = n + 1
